@@ -27,7 +27,7 @@ BL_EPS = {"blacklist", "refundUsers", "unblacklist"}
 PROPS = {
     "C01": dict(
         title="Ticket-payment solvency",
-        lean=["LP.Props.C01", "LP.Props.C01reach", "LP.Props.C01reachV2", "LP.Props.C01reachV1", "LP.Props.C01reachG1", "LP.Props.C14reach", "LP.Props.C14reachG", "LP.Props.AllVariants", "LP.Props.C09nothing", "LP.Props.C01receipts", "LP.Props.C01owner", "LP.Props.C01zero", "LP.Props.C14zero", "LP.Props.C01zeroV1", "LP.Props.C01zeroG1", "LP.Props.C14zeroG"],
+        lean=["LP.Props.C01", "LP.Props.C01reach", "LP.Props.C01reachV2", "LP.Props.C01reachV1", "LP.Props.C01reachG1", "LP.Props.C14reach", "LP.Props.C14reachG", "LP.Props.AllVariants", "LP.Props.C09nothing", "LP.Props.C01receipts", "LP.Props.C01owner", "LP.Props.C01zero", "LP.Props.C14zero", "LP.Props.C01zeroV1", "LP.Props.C01zeroG1", "LP.Props.C14zeroG", "LP.Props.C14zeroGfull"],
         profiles=[("life", ALL_VARIANTS), ("chunks", ALL_VARIANTS)],
         R={"xf.pay": {"claim", "claimPayment", "blacklist", "refundUsers"},
            "st": ({"claim", "claimPayment"}, FUNDS_MSGS)},
@@ -103,14 +103,14 @@ PROPS = {
     ),
     "C11": dict(
         title="Guarantees honoured with the holder's own tickets",
-        lean=["LP.Props.C11topup", "LP.Props.C01reachV2", "LP.Props.C01reachV1", "LP.Props.C01reachG1", "LP.Props.C14reachG", "LP.Props.AllVariants2", "LP.Props.C14zeroG"],
+        lean=["LP.Props.C11topup", "LP.Props.C01reachV2", "LP.Props.C01reachV1", "LP.Props.C01reachG1", "LP.Props.C14reachG", "LP.Props.AllVariants2", "LP.Props.C14zeroG", "LP.Props.C14zeroGfull"],
         profiles=[("topup", GUAR), ("life", GUAR), ("chunks", GUAR), ("reserve", GUAR)],
         R={"ret": {"distribute"}},
         D={"status": {"distribute", "secondary"}, "addr.win": {"distribute", "secondary"}, "nrw": {"distribute", "secondary"}},
     ),
     "C12": dict(
         title="Guarantee reserve conserved; leftovers re-drawn",
-        lean=["LP.Props.C12reserve", "LP.Props.C03final", "LP.Props.C01reachV2", "LP.Props.C01reachV1", "LP.Props.C01reachG1", "LP.Props.C14reachG", "LP.Props.AllVariants2", "LP.Props.C01zeroV1", "LP.Props.C01zeroG1"],
+        lean=["LP.Props.C12reserve", "LP.Props.C03final", "LP.Props.C01reachV2", "LP.Props.C01reachV1", "LP.Props.C01reachG1", "LP.Props.C14reachG", "LP.Props.AllVariants2", "LP.Props.C01zeroV1", "LP.Props.C01zeroG1", "LP.Props.C14zeroGfull"],
         profiles=[("reserve", GUAR), ("topup", GUAR), ("life", GUAR), ("chunks", GUAR)],
         R={"st": [(ALLOC_EPS | BL_EPS, RESERVE_MSGS), ({"deposit"}, ["Wrong amount"])],
            "draws": {"distribute"}},
@@ -127,7 +127,7 @@ PROPS = {
     ),
     "C14": dict(
         title="NFT draw and fees",
-        lean=["LP.Props.C14", "LP.Props.C14reach", "LP.Props.C14reachG", "LP.Props.C14feeLp", "LP.Props.C14zero", "LP.Props.C14zeroG"],
+        lean=["LP.Props.C14", "LP.Props.C14reach", "LP.Props.C14reachG", "LP.Props.C14feeLp", "LP.Props.C14zero", "LP.Props.C14zeroG", "LP.Props.C14zeroGfull"],
         profiles=[("life", ["nft", "nftGuar"]), ("chunks", ["nft", "nftGuar"]), ("deploy", ["nft", "nftGuar"])],
         R={"st": ({"deploy", "confirmNft", "selectNft", "secondary", "setNftCost"}, None), "sft": ANY,
            "xf.fee": {"claim", "claimPayment", "blacklist"}, "ret": {"selectNft", "secondary"}},
